@@ -4,6 +4,7 @@ import Just.Lemmas.SyntaxRoundtrip
 import Just.Lemmas.Header
 import Just.Lemmas.Items
 import Just.Lemmas.Ast
+import Just.Lemmas.ParserWF
 set_option linter.unusedSimpArgs false
 /-
 C10  Formatting preserves meaning and is idempotent.
@@ -162,6 +163,34 @@ theorem file_format_idempotent (litLe : String → String → Bool) (F : Nat) (i
     (Ast.parseAst litLe (F + 2) (Ast.printAst items)).map Ast.printAst = some (Ast.printAst items) := by
   rw [file_roundtrip litLe F items hw hf hlen]
   simp [Ast.printAst, Ast.printItems_forget]
+
+/-- **Whatever `parse_ast` returns is well-formed** (`WFItem`), for every token list and every fuel, when the order between
+two `[group(…)]` literals is a linear order (the real one is: cooked text, then the flags, then the raw text).  So the
+hypotheses of `file_roundtrip` are not a restriction on the files people write.  (Proof: Lemmas/ParserWF.lean - where a
+sub-parse stops the printed form of what it read stops too (`ParserStops`: `After`, `StopE`), the printed form of the next
+phrase begins like its source (`ParserHead`), values are `WFValue`, headers `WFHeader`, recipes `WFRecipe`; the attribute
+set stays sorted and free of duplicates under insertion; doc comments come out trimmed.) -/
+theorem parsed_file_is_wellformed (litLe : String → String → Bool) (hl : Ast.LinearLe litLe) (fuel : Nat) (ts : List Tk)
+    (items : List Ast.Item) (h : Ast.parseAst litLe fuel ts = some items) : ∀ it ∈ items, Ast.WFItem litLe it :=
+  Ast.parseAst_wf hl fuel ts items h
+
+/-- **Formatting any file that parses preserves it and is idempotent.**  Whatever tokens the user wrote: if `parse_ast`
+accepts them and returns `items`, then the formatted file (`Display for Ast`) parses to the same items - minus the doc comment
+and attributes of `mod` items, the recorded finding - and formatting that again prints the same tokens.  `F` is any fuel above
+the explicit linear bounds `ItemFuel`; by `C11.parser_needs_no_fuel` the amount is immaterial. -/
+theorem format_of_any_file (litLe : String → String → Bool) (hl : Ast.LinearLe litLe) (fuel : Nat) (ts : List Tk)
+    (items : List Ast.Item) (h : Ast.parseAst litLe fuel ts = some items)
+    (F : Nat) (hf : ∀ it ∈ items, Ast.ItemFuel (F + 2) it) (hlen : 3 * items.length ≤ F) :
+    Ast.parseAst litLe (F + 2) (Ast.printAst items) = some (items.map Ast.Item.forget)
+    ∧ (Ast.parseAst litLe (F + 2) (Ast.printAst items)).map Ast.printAst = some (Ast.printAst items) :=
+  have hw := parsed_file_is_wellformed litLe hl fuel ts items h
+  ⟨file_roundtrip litLe F items hw hf hlen, file_format_idempotent litLe F items hw hf hlen⟩
+
+/-- the string order is a linear order: the hypothesis of `format_of_any_file` is satisfiable -/
+example : Ast.LinearLe (fun a b => decide (a ≤ b)) :=
+  ⟨fun a b => by simpa using String.le_total a b,
+   fun a b c h1 h2 => by simp only [decide_eq_true_eq] at *; exact String.le_trans h1 h2,
+   fun a b h1 h2 => by simp only [decide_eq_true_eq] at *; exact String.le_antisymm h1 h2⟩
 
 /-- the recorded finding, in the model: the doc comment and the attributes of a module do not survive formatting
 (`# about m` / `[group('g')]` / `mod m` prints as `mod m`) -/
